@@ -258,7 +258,7 @@ fn configs(prop: &str, thorough: bool) -> Vec<(Cfg, Option<usize>)> {
                 c.inc_exps = if thorough {
                     vec![ExpA::Unset, ExpA::Never, ExpA::H(H0), ExpA::H(H0 + 1), ExpA::H(H0 + 2), ExpA::T(T0), ExpA::T(T0 + DT)]
                 } else {
-                    vec![ExpA::Unset, ExpA::Never, ExpA::H(H0), ExpA::H(H0 + 1), ExpA::T(T0), ExpA::T(T0 + 2 * DT)]
+                    vec![ExpA::Unset, ExpA::Never, ExpA::H(H0), ExpA::H(H0 + 1), ExpA::H(H0 + 2), ExpA::T(T0), ExpA::T(T0 + 2 * DT)]
                 };
                 c.dec_exps = if thorough { vec![ExpA::Unset, ExpA::Never, ExpA::H(H0 + 1), ExpA::H(H0 + 2), ExpA::T(T0)] } else { vec![ExpA::Unset, ExpA::Never, ExpA::H(H0 + 1)] };
                 c.exec_callers = vec![S1, S2];
@@ -463,7 +463,8 @@ fn configs(prop: &str, thorough: bool) -> Vec<(Cfg, Option<usize>)> {
                     // two holders of permissions: a grant held by one must not let it grant to the other
                     c.perm_targets = vec![(2, if thorough { vec![0, 1, 2, 4, 8, 3, 12, 15] } else { vec![0, P_DELEGATE, P_WITHDRAW, 15] }), (1, vec![P_REDELEGATE])];
                     c.exec_callers = vec![0, 1, 2, 3];
-                    c.exec_lists = vec![vec![send(&[(0, 1)])], vec![send(&[])], vec![send(&[(0, 0)])], vec![M::Delegate], vec![M::WasmExec], vec![]];
+                    // (a send whose recipient is the proxy itself: still the subkey's own spending, never a credit — seeded C17_r11_1)
+                    c.exec_lists = vec![vec![send(&[(0, 1)])], vec![send(&[])], vec![send(&[(0, 0)])], vec![M::SendSelf(vec![(0, Amt(1))])], vec![M::Delegate], vec![M::WasmExec], vec![]];
                     c.exec_funds = vec![vec![], vec![(0, Amt(1))]];
                     c.grant_funds = vec![GF::None, GF::Same, GF::Other];
                     if n.ends_with("admin-ops-only") {
